@@ -377,7 +377,8 @@ def c12_script(rng, thorough):
         powd = rng.choice([0, 4, 4, 8])
         for order in ("ab", "ba"):
             lines.append("hs seeda=%d seedb=%d ida=%d idb=%d order=%s pow=%d adv=%d%s" % (sa, sb, ia, ib, order, powd, rng.choice([0, 1, 999, 5000]),
-                                                                                               " rehs=1 rotwait=%d" % rng.choice([301, 600, 3601]) if rng.random() < 0.3 else ""))
+                                                                                               " rehs=1 rotwait=%d%s" % (rng.choice([0, 1, 301, 600, 3601]), " seedb2=%d" % rng.randrange(2 ** 32) if rng.random() < 0.5 else "")
+                                                                                               if rng.random() < 0.4 else ""))
     lines.append("reset")
     bad = [0, 1, p, p + 1, 2 ** 31, 2 ** 32 - 1] + [rng.randrange(p, 2 ** 32) for _ in range(6)]
     good = [2, p - 1, p - 2] + [rng.randrange(2, p) for _ in range(5)]
@@ -434,7 +435,7 @@ def run_c12(chk):
     chk.level = "exploration"
     chk.cov["rule"] = ("cases = candidate public values {0,1,2,3,p-2,p-1,p,p+1,2^31,2^32-1,...} plus seeded random ones on both sides of p; scalar pairs {2,3,p-3,p-2}^2, scalars (p-1)/d whose public key has small order d (d=2: public key p-1) against odd/even partners, plus "
                        "seeded random pairs in [2,p-2]; pairs of real Nodes with random identity seeds and peer ids (incl. all-00/all-FF ids, seeds 0 and 2^32-1), PoW "
-                       "difficulty {0,4,8}, both handshake orders; candidates offered to Node::perform_handshake with and without PoW. A case is distinct/non-trivial by "
+                       "difficulty {0,4,8}, both handshake orders, a second handshake after a rotation with the peer restarted under the same or under a NEW identity seed (same peer id, other public key); candidates offered to Node::perform_handshake with and without PoW. A case is distinct/non-trivial by "
                        "(operation, class of the value w.r.t. 1/p, order, PoW difficulty, outcome); every event is decided by TLC evaluating spec/DH.tla (+ Sha256/Hmac for the KDF count).")
     bg = Background(lambda: mc_parallel(chk, c12_models(thorough), max_parallel=3))
     try:
